@@ -41,8 +41,8 @@ def run(facts, R):
     R.check(not in_cycle(hc, gi), "guard-owns-disconnect", hc.path, "built outside any loop", "the guard is constructed inside a loop", gs.get("span"))
     gv = s.rvalue(gs["rv"])
     d = dict(gv[3])
-    okh = render_n(d["hooks"]).endswith("config.on_disconnect") or "config.on_disconnect" in render_n(d["hooks"])
-    okc = render_n(d["cancel"]).endswith("conn_token") or "conn_token" in render_n(d["cancel"])
+    okh = "hooks" in d and "config.on_disconnect" in render_n(d["hooks"])
+    okc = "cancel" in d and "conn_token" in render_n(d["cancel"])
     R.check(okh and okc, "guard-owns-disconnect", hc.path, "guard carries config.on_disconnect and the connection token", "guard built as %s" % render_n(gv)[:200], gs.get("span"), render_n(gv)[:160])
     gl = [l for l in range(len(hc.locals)) if hc.local_ty(l) == GUARD]
     moves = []
@@ -115,14 +115,18 @@ def run(facts, R):
 
     # ---------------- cancel-before-hooks ----------------------------------------------------------------------
     cancels = [(i, t) for i, t in dp.calls() if t["callee"]["name"] == "cancel" and "CancellationToken" in t["callee"]["path"]]
-    R.check(len(cancels) == 1 and hookcalls and dp.dominates(cancels[0][0], hookcalls[0][0]) and "arg1.cancel" in render_n(ds.op(cancels[0][1]["args"][0])),
-            "cancel-before-hooks", dp.path, "token cancelled before the hook loop", "cancel() does not dominate the hook loop", dp.span, "cancel() then hooks")
+    R.check(len(cancels) == 1 and bool(hookcalls) and dp.dominates(cancels[0][0], hookcalls[0][0]) and "arg1.cancel" in render_n(ds.op(cancels[0][1]["args"][0])),
+            "cancel-before-hooks", dp.path, "token cancelled by the guard's Drop, before the hook loop",
+            "the guard's Drop does not cancel the connection token before running the hooks (cancel calls in Drop: %d): handlers still running when the connection "
+            "unwinds or its task is dropped never observe cancellation" % len(cancels), dp.span, "cancel() then hooks")
     conn = [(i, j, st) for i, j, st in hc.assigns() if st["rv"].get("agg") == "adt" and st["rv"]["adt"] == WS + "ConnDispatch"]
     R.check(len(conn) == 1, "cancel-before-hooks", hc.path, "one ConnDispatch", "found %d" % len(conn), hc.span)
     for i, j, st in conn:
         cd = dict(s.rvalue(st["rv"])[3])
-        R.check(render_n(cd["conn_token"]) == render_n(d["cancel"]), "cancel-before-hooks", hc.path, "handlers observe the guard's token",
-                "reader token %s vs guard token %s" % (render_n(cd["conn_token"]), render_n(d["cancel"])), st.get("span"), render_n(cd["conn_token"]))
+        gtok = render_n(d["cancel"]) if "cancel" in d else None
+        R.check(gtok is not None and render_n(cd["conn_token"]) == gtok, "cancel-before-hooks", hc.path, "handlers observe the guard's token",
+                "reader token %s vs guard token %s: the token the handlers poll is not the one the disconnect guard cancels on every exit (return, unwind, task drop)"
+                % (render_n(cd["conn_token"]), gtok), st.get("span"), render_n(cd["conn_token"]))
 
     # ---------------- registry-pairing / hooks-before-reader -------------------------------------------------------
     hooks = [(i, t) for i, t in hc.calls() if t["callee"]["name"] == "call" and "on_connect" in render(s.op(t["args"][0]))]
